@@ -487,7 +487,8 @@ def rule5(ctx, rep):
         floor=3,
         breaks='a unit handed to the cloud path silently disappears: it is in no list of the farm, its target stays in `doing` and nothing re-releases it',
     ) as r:
-        steps = [m for n, m in sorted(cls.methods.items()) if not n.startswith('__')]
+        # steps: the methods of the exchange; helpers extracted later (called directly by a step) are analysed inline
+        steps = [m for n, m in sorted(cls.methods.items()) if not n.startswith('__') and not shared.inlined_helper(prog, ctx.cg, m)]
         for m in steps:
             f = prog.nfunc(m.qname)
             rep.analysed(f)
@@ -531,6 +532,8 @@ def rule6(ctx, rep):
         strip = []
         for o in _w.all_ops(prog):
             if o.kind == 'doing' and o.op in _w.SHRINK:
+                if shared.inlined_helper(prog, ctx.cg, o.func):
+                    continue  # seen again, spliced into its caller
                 r.instance()
                 rep.analysed(o.func)
                 ok = o.func.qname == 'dawgie.pl.schedule.complete'
